@@ -35,6 +35,7 @@ VERIF = Path(__file__).resolve().parent.parent
 OUT = Path(os.environ.get('HPL_VERIF_OUT', str(VERIF)))
 REPO = Path(os.environ.get('HPL_VERIF_REPO', '/repo'))
 NPROC = int(os.environ.get('HPL_VERIF_JOBS', '16'))
+MAX_REPORTED = 40  # replay files / VIOLATION lines per run; every signature is still counted and listed
 
 
 def setup_env():
@@ -217,6 +218,10 @@ def finish(check_id, tier, total: Result, describe: dict, wall_s: float, level='
             print(f"KNOWN-FINDING: property={check_id} {k.get('what', sig)} [{counts[sig]} cases, e.g. {json.dumps(v['witness'], default=str)[:200]}]")
             known_met.append(sig)
             continue
+        new.append(sig)
+        status = 1
+        if len(new) > MAX_REPORTED:
+            continue  # counted; the first MAX_REPORTED signatures get a replay file and a VIOLATION line
         rdir.mkdir(parents=True, exist_ok=True)
         path = rdir / f'{sig_hash(sig)}.json'
         path.write_text(
@@ -236,8 +241,8 @@ def finish(check_id, tier, total: Result, describe: dict, wall_s: float, level='
         print(f'VIOLATION property={check_id} replay={path}')
         print(f'  signature: {sig}')
         print(f'  detail: {str(v["detail"])[:600]}')
-        new.append(sig)
-        status = 1
+    if len(new) > MAX_REPORTED:
+        print(f'... and {len(new) - MAX_REPORTED} more distinct violation signatures (all listed in the evidence file)')
 
     c = total.counters
     evaluations = int(c.get('evaluations', 0))
